@@ -14,7 +14,7 @@ RULE = ('cases = every set of 1..4 (thorough 5) ranges with (marker, start) draw
         'descending and interleaved order on the same object; non-trivial = set with >= 2 ranges')
 RULE += '; 9 constructions per listing order: class, factory, default_value=25 (also with one zero() range), public range_defns setter after other ranges, ranges without analytic derivatives, ranges offering .deriv only (deriv2 offered iff some range offers it), Multi_Range_Defn instances shared with two other potentials, potable text (marked / first range unmarked); sets that repeat a definition; 9, 10, 12 and 14 ranges in five structured orders; the caller\'s idioms on the public range_defns property (list from the getter extended and assigned back, +=, generator / reversed() over the current list) and copies (copy.deepcopy of class, factory and potable objects, copy.copy given other ranges) must select like a fresh object; range starts of type numpy.float64 and int'
 ASSUMPTIONS = [
-    'two ranges with identical marker AND start are outside the alphabet (the statement cannot be satisfied for them)',
+    'two ranges with identical marker AND start: for r strictly above the start either may serve (the statement cannot single one out); at r == start of two exclusive ranges neither contains r and the range below serves',
     'for r strictly above a start shared by a ">=" and a ">" range the statement does not say which is used: either is accepted, '
     'but value, deriv and deriv2 must come from the same range and not depend on the listing or evaluation order',
     'quadratics with pairwise distinct value, slope and curvature identify the selected range from the observed numbers',
@@ -40,6 +40,11 @@ def cases(tier):
     for rg in ([['>=', 0.0, 0], ['>=', 2.0, 0], ['>', 1.0, 1]], [['>', 0.0, 2], ['>=', 1.0, 3], ['>', 2.0, 2], ['>=', 3.0, 3]], [['>=', 0.0, 1], ['>', 1.0, 1], ['>=', 2.0, 4], ['>', 3.0, 1]],
                [['>', 0.0, 0], ['>', 1.0, 5], ['>', 2.0, 5], ['>', 3.0, 0], ['>=', 0.5, 5]]):
         out.append(dict(ranges=rg, api_inf=False))
+    # two exclusive ranges that share a start s (an unmarked first range followed by an explicit '>0' one; a definition pasted twice): which of them serves
+    # r > s is not determined (either is accepted, consistently for value and derivatives) - but AT r == s neither contains r: the range below, or nothing
+    for rg in ([['>', 0.0, 0], ['>', 0.0, 1]], [['>=', 0.0, 0], ['>', 2.0, 1], ['>', 2.0, 2]], [['>', 1.0, 0], ['>', 1.0, 1], ['>=', 1.0, 2]],
+               [['>=', 0.0, 3], ['>', 1.0, 0], ['>', 1.0, 1], ['>', 3.0, 2], ['>', 3.0, 4]]):
+        out.append(dict(ranges=rg, api_inf=False, dup=True))
     # many ranges (piecewise potentials with one polynomial per knot interval): 9..14 ranges, structured listing orders
     for n in (9, 10, 12, 14):
         for pat in range(3):
@@ -272,6 +277,8 @@ def run_case(case):
                     if how.startswith('class default') or 'numerical' in how:
                         continue
                     key = r
+                    if case.get('dup') and len(exp[r]) > 1:
+                        continue          # (served by either of two ranges with the same marker and start: the listing may decide)
                     if key in first_obs:
                         if not all(close(g, e) for g, e in zip(got, first_obs[key][0])):
                             V('listing-order-dependence', 'r=%r: %s listed %r gives %r but %s gave %r' % (r, how, [(m, s) for m, s, _q in order], got, first_obs[key][1], first_obs[key][0]))
